@@ -183,6 +183,17 @@ func (w *World) applyNetFault(c *ClientInfo, f *Fault, path string, data []byte,
 			// the forged record claims the number of another record (one the client may have validated
 			// earlier), under the genuine signed head
 			oid := int64(f.A / 4 % uint64(c.Size))
+			// preferably the number of a record this client has already been given (and so may have
+			// validated): what a memo of validated record numbers would be fooled by
+			var seenIDs []int64
+			for _, k := range SortedKeys(c.Delivered) {
+				if did, _, _, ok := ref.SplitRecordMsg(string(c.Delivered[k])); ok && did != id && did < c.Size {
+					seenIDs = append(seenIDs, did)
+				}
+			}
+			if len(seenIDs) > 0 && f.B%4 != 0 {
+				oid = seenIDs[int(f.B/4%uint64(len(seenIDs)))]
+			}
 			out = append([]byte(ref.FormatRecordMsg(oid, forged)), rest...)
 		case "forge-record+leaf":
 			out = append([]byte(ref.FormatRecordMsg(id, forged)), rest...)
